@@ -3,6 +3,9 @@ import random
 import numpy as np
 from . import core
 from .core import Case, cZ, clist, cpair
+from . import pylite_tie
+
+obligations = pylite_tie.lon_obligations   # source-regenerated tie (see harness/pylite_tie.py)
 
 ID = "C17"
 PROPS_FILE = "Props/C17.v"
